@@ -2,7 +2,7 @@
    The definitions FL_dispatch / FL_dens_dispatch / fsign are GENERATED from /repo on every run
    (Gen/Limiters.v); the closed forms sp_table are hand-written in Spec/LimiterSpec.v. *)
 From Coq Require Import Reals String List Floats.
-From PFV Require Import OField KOps Limiters LimiterSpec LimiterThy F64Ops FloatThy FloatLimThy FloatLim2Thy FloatLim3Thy FloatLim4Thy FloatAllThy.
+From PFV Require Import OField KOps Limiters LimiterSpec LimiterThy F64Ops FloatThy FloatLimThy FloatLim2Thy FloatLim3Thy FloatLim4Thy FloatAllThy FloatGuardThy.
 Local Open Scope R_scope.
 
 (* every named limiter evaluates the published closed form, for every real r *)
@@ -97,6 +97,27 @@ Proof. exact eps_default_ok. Qed.
 Theorem C13_float_fsign_finite : forall eps1 x, fin 0 eps1 -> fin 1000 x -> fin 1010 (fsign FOps eps1 x).
 Proof. exact float_fsign. Qed.
 Print Assumptions C13_float_fsign_finite.
+(* the guard in binary64: every operation inside _fsign is exact, it returns exactly x, eps1 or -eps1, of magnitude >= eps1 ... *)
+Theorem C13_float_fsign_exact : forall eps x, fin 0 eps -> 0 < FR eps -> fin 1000 x ->
+  exists v, (fin 1000 (fsign FOps eps x) /\ FR (fsign FOps eps x) = v) /\ (v = FR x \/ v = FR eps \/ v = - FR eps) /\ FR eps <= Rabs v.
+Proof. exact fsign_exact. Qed.
+Print Assumptions C13_float_fsign_exact.
+(* ... hence the gradient ratio is a finite float for every x (zero, denormal, huge) and |a| <= 2^k, and the limited value FL(a / _fsign(x)) of
+   EVERY limiter is a finite float for |a| <= 2^400: "finite for every finite field, including exactly equal or exactly opposite successive
+   differences" at the binary64 level, for the ratio and the limiter (the remaining products of the TVD vector are not modelled in binary64) *)
+Theorem C13_float_ratio_finite : forall k eps a x, fin 0 eps -> pos (-100) eps -> fin k a -> fin 1000 x -> okexp (k - -100) = true ->
+  fin (k - -100) (PrimFloat.div a (fsign FOps eps x)).
+Proof. exact ratio_finite. Qed.
+Print Assumptions C13_float_ratio_finite.
+Theorem C13_float_limited_ratio_finite : forall name epsL eps1 a x,
+  fin 0 epsL -> 0 < FR epsL -> fin 0 eps1 -> pos (-100) eps1 -> fin 400 a -> fin 1000 x ->
+  PrimFloat.is_finite (FL_dispatch FOps name epsL (PrimFloat.div a (fsign FOps eps1 x))) = true.
+Proof.
+  intros. rewrite Flocq.IEEE754.PrimFloat.is_finite_equiv. apply limited_ratio_finite; assumption.
+Qed.
+Print Assumptions C13_float_limited_ratio_finite.
+Example C13_float_default_eps1_ok : fin 0 (eps1_default FOps) /\ pos (-100) (eps1_default FOps).
+Proof. exact eps1_default_ok. Qed.
 (* refutation of the full statement at binary64: finite r = 2^520 gives NaN (CHARM, ospre, VanAlbada1), r = 2^1023 gives NaN
    (VanAlbada2) or an infinity (HCUS, HQUICK, VanLeer) -- known finding c13:float_overflow *)
 Theorem C13_float_overflow_refuted :
